@@ -8,7 +8,7 @@ the textbook compression function (80 single rounds over the sliding schedule wi
 Structure of the proof:
 * `grp`: one `sha1rnds4` call = four textbook rounds (any boolean function, any constant) — after
   unfolding, the two sides differ only in the order of the additions (`L1`, `L2`, `ac_rfl`);
-* `bool202_eq` …: the Rust boolean macros are Ch / Parity / Maj (`bv_decide`);
+* `bool202_eq` …: the Rust boolean macros are Ch / Parity / Maj (`bv_decide (timeout := 300)`);
 * `win_shift4`: `schedule!` computes the next four schedule words (xor re-association);
 * `stepN` is the rolled-up form of the unrolled register rotation; `processWords_eq_stepN` is by
   definitional unfolding; `rounds_stepN` is the induction over groups of four rounds.
@@ -44,7 +44,7 @@ theorem grp (F) (a b c d e x0 x1 x2 x3 K : UInt32) :
   simp only [L1, L2]
 
 theorem bool202_eq : bool202 = Spec.Sha1.ch := by
-  funext a b c; simp only [bool202, Spec.Sha1.ch]; bv_decide
+  funext a b c; simp only [bool202, Spec.Sha1.ch]; bv_decide (timeout := 300)
 theorem bool150_eq : bool150 = Spec.Sha1.parity := rfl
 theorem bool232_eq : bool232 = Spec.Sha1.maj := rfl
 
@@ -217,7 +217,7 @@ open Physis.Spec.Sha1 (Vars Window)
 theorem word_eq (b0 b1 b2 b3 : UInt8) :
     (b3.toUInt32 ||| (b2.toUInt32 <<< 8) ||| (b1.toUInt32 <<< 16) ||| (b0.toUInt32 <<< 24)) =
     ((b0.toUInt32 <<< 24) ||| (b1.toUInt32 <<< 16) ||| (b2.toUInt32 <<< 8) ||| b3.toUInt32) := by
-  bv_decide
+  bv_decide (timeout := 300)
 
 theorem words_eq (blk : Bytes) : words blk = Spec.Sha1.beWords blk := by
   fun_induction words blk with
